@@ -715,11 +715,11 @@ pub fn run(p: &Prop) {
     let bn_g1 = CurveCtx::<bn256::G1Affine> { name: "bn256.G1", pool_len: plen, pool: OnceLock::new(), multi_exp: None };
     let bn_g2 = CurveCtx::<bn256::G2Affine> { name: "bn256.G2", pool_len: plen, pool: OnceLock::new(), multi_exp: None };
 
-    msm_suite(p, &bls_g1, 4096, p.tier.pick(1100, 40_000), p.tier.pick(8, 240), 8, usize::MAX);
-    msm_suite(p, &bn_g1, 4096, p.tier.pick(800, 30_000), p.tier.pick(8, 240), 8, usize::MAX);
+    msm_suite(p, &bls_g1, 4096, p.tier.pick(1100, 16_000), p.tier.pick(8, 120), 8, usize::MAX);
+    msm_suite(p, &bn_g1, 4096, p.tier.pick(800, 12_000), p.tier.pick(8, 120), 8, usize::MAX);
     let g2_max = p.tier.pick(2048, 4096);
-    msm_suite(p, &bls_g2, g2_max, p.tier.pick(350, 12_000), p.tier.pick(4, 96), 4, 0);
-    msm_suite(p, &bn_g2, g2_max, p.tier.pick(300, 12_000), p.tier.pick(4, 96), 4, 0);
+    msm_suite(p, &bls_g2, g2_max, p.tier.pick(350, 5_000), p.tier.pick(4, 40), 4, 0);
+    msm_suite(p, &bn_g2, g2_max, p.tier.pick(300, 4_000), p.tier.pick(4, 40), 4, 0);
 
     // --- known crash shapes, isolated
     let mut items = vec![];
